@@ -205,3 +205,15 @@ Proof.
   exists demo_prim. eexists. change (g_without 0) with no_empty_guard. rewrite empty_key_part_refuted. reflexivity.
 Qed.
 
+Lemma c12_claims_root_check_needed_for_consistent_states :
+  class_of (validate_issuer_state consistent_state_without_ctr) = COk /\
+  (exists s, i_state (sm_issuer s) = consistent_state_without_ctr /\
+             class_of (verify_smt (g_without 4) s) = CPanic) /\
+  (exists b, i_state (b_issuer b) = consistent_state_without_ctr /\
+             class_of (verify_bjj (g_without 4) b) = CPanic).
+Proof.
+  split; [reflexivity|]. split.
+  - eexists. split; [|rewrite smt_ctr_guard_refuted_consistent; reflexivity]. reflexivity.
+  - exists bjj_without_ctr. split; [reflexivity|rewrite bjj_ctr_guard_refuted_consistent; reflexivity].
+Qed.
+
